@@ -87,6 +87,69 @@ Theorem C06_dead_code_never_creates :
 Proof. exact dead_code_never_creates. Qed.
 Print Assumptions C06_dead_code_never_creates.
 
+(* revocation against activation, every schedule (faults and expiry included): a revocation that wrote the revoked
+   record and an activation never both succeed.  (RGone — RevokeConnectionCode returning nil because the code had
+   already expired and vanished, nothing written — is a different result and is not constrained.) *)
+Theorem C06_revoke_and_activation_exclusive_all_schedules :
+  forall (P : params) (s : st sh lo) (sched : list nat),
+  mains (fst s) = [] ->
+  (forall t, In t (snd s) -> l_pc t = PGet \/ exists e, l_pc t = PDone (RErr e)) ->
+  (forall i j ti tj, nth_error (snd s) i = Some ti -> nth_error (snd s) j = Some tj -> l_me ti = l_me tj -> i = j) ->
+  let s' := run sh lo (tstep Current P) s sched in
+  forall tr ta m, In tr (snd s') -> In ta (snd s') ->
+    l_kind tr = KRev -> l_pc tr = PDone RRevoked -> l_pc ta = PDone (ROk m) -> False.
+Proof. intros P s sched H1 H2 H3. exact (revoke_activation_exclusive P s sched (conj H1 (conj H2 H3))). Qed.
+Print Assumptions C06_revoke_and_activation_exclusive_all_schedules.
+
+(* more generally at most ONE call on a code ever wins (successful activation, or revocation that wrote the record):
+   two winners are the same call — so also at most one revocation succeeds *)
+Theorem C06_one_winner_all_schedules :
+  forall (P : params) (s : st sh lo) (sched : list nat),
+  mains (fst s) = [] ->
+  (forall t, In t (snd s) -> l_pc t = PGet \/ exists e, l_pc t = PDone (RErr e)) ->
+  (forall i j ti tj, nth_error (snd s) i = Some ti -> nth_error (snd s) j = Some tj -> l_me ti = l_me tj -> i = j) ->
+  let s' := run sh lo (tstep Current P) s sched in
+  forall i j ti tj, nth_error (snd s') i = Some ti -> nth_error (snd s') j = Some tj ->
+    ((l_kind ti = KRev /\ l_pc ti = PDone RRevoked) \/ exists m, l_pc ti = PDone (ROk m)) ->
+    ((l_kind tj = KRev /\ l_pc tj = PDone RRevoked) \/ exists m, l_pc tj = PDone (ROk m)) -> i = j.
+Proof. intros P s sched H1 H2 H3. exact (one_winner P s sched (conj H1 (conj H2 H3))). Qed.
+Print Assumptions C06_one_winner_all_schedules.
+
+(* revoked at Claim never creates: in any reachable state within the activation period in which a revocation has
+   completed, the claim marker is (still) set, and an activator that read the code BEFORE the revocation and reaches
+   its Claim step now is turned away with an error without touching the store *)
+Theorem C06_revoked_at_claim_never_creates :
+  forall (P : params) (s : st sh lo) (sched : list nat),
+  mains (fst s) = [] ->
+  (forall t, In t (snd s) -> l_pc t = PGet \/ exists e, l_pc t = PDone (RErr e)) ->
+  (forall i j ti tj, nth_error (snd s) i = Some ti -> nth_error (snd s) j = Some tj -> l_me ti = l_me tj -> i = j) ->
+  let s' := run sh lo (tstep Current P) s sched in
+  expired (fst s') = false ->
+  (exists tr, In tr (snd s') /\ l_kind tr = KRev /\ l_pc tr = PDone RRevoked) ->
+  claim (fst s') = true /\
+  forall t l la ok, l_kind t = KAct l la ok -> l_pc t = PClaim ->
+    snd (tstep Current P t (fst s')) = fst s' /\ exists e, l_pc (fst (tstep Current P t (fst s'))) = PDone (RErr e).
+Proof. intros P s sched H1 H2 H3. exact (revoked_at_claim_never_creates P s sched (conj H1 (conj H2 H3))). Qed.
+Print Assumptions C06_revoked_at_claim_never_creates.
+
+(* the revoke race on a concrete schedule (activator reads, revocation runs to completion, activator goes on):
+   repaired code — activation refused, nothing created, record stays revoked; tree as found — the revoked code is
+   activated and the revoked flag overwritten from the activator's stale copy *)
+Theorem C06_repaired_revoke_race_activation_refused :
+  let s := run sh lo (tstep Current P0) (s0 act_and_rev) ([0] ++ repeat 1 4 ++ repeat 0 12) in
+  finished (snd s) = true /\ oks (snd s) = 0 /\ errs (snd s) = 1 /\ mains (fst s) = [] /\
+  by_code (fst s) = Some {| c_act := false; c_rev := true; c_by := 0; c_map := 0 |}.
+Proof. exact current_revoke_race_activation_refused. Qed.
+Print Assumptions C06_repaired_revoke_race_activation_refused.
+
+Theorem C06_pinned_revoke_race_refuted :
+  let s := run sh lo (tstep Pinned P0) (s0 act_and_rev) ([0] ++ repeat 1 4 ++ repeat 0 12) in
+  finished (snd s) = true /\ oks (snd s) = 1 /\ length (mains (fst s)) = 1 /\
+  (exists t, In t (snd s) /\ l_pc t = PDone RRevoked) /\
+  by_code (fst s) = Some {| c_act := true; c_rev := false; c_by := 101; c_map := 1 |}.
+Proof. exact pinned_revoke_race_refuted. Qed.
+Print Assumptions C06_pinned_revoke_race_refuted.
+
 (* the tree as found (no atomic claim): two overlapping activations both succeed and leave two mappings *)
 Theorem C06_pinned_overlapping_activations_refuted :
   exists sched,
